@@ -19,6 +19,9 @@ import traceback
 VERIF = os.path.dirname(os.path.dirname(os.path.abspath(__file__)))
 REPO = os.environ.get("MOKAPOT_REPO", "/repo")
 VENV_PY = os.environ.get("MOKAPOT_PY", "/venv/bin/python")
+# evidence/ and replays/ live under /verif; experiments on scratch trees redirect them (never used by the
+# registered commands)
+OUT = os.environ.get("VERIF_OUT", VERIF)
 
 from .engine import Exec, Stale, Unsupported, find_function, strip_for_hash  # noqa: E402
 from .lib import LIB  # noqa: E402
@@ -283,7 +286,7 @@ def verify_contracts(run, contracts, registry, mutate=None, collect=True):
 
 def triage(run, failed, known, mods):
     """Failed obligations -> KNOWN-FINDING / VIOLATION (replayed or no-failing-input-found) / UNDECIDED."""
-    os.makedirs(os.path.join(VERIF, "replays"), exist_ok=True)
+    os.makedirs(os.path.join(OUT, "replays"), exist_ok=True)
     for (c, ex, o, r) in failed:
         key = {"target": c.target, "obligation": o.name}
         kf = match_known(known, run.prop, "obligation", key)
@@ -304,7 +307,7 @@ def triage(run, failed, known, mods):
             continue
         # candidate counterexample -> native replay
         rid = hashlib.md5(("%s:%s" % (c.target, o.name)).encode()).hexdigest()[:8]
-        rpath = os.path.join(VERIF, "replays", "%s-%s-%s.json" % (run.prop, c.target.split(".")[-1].replace("#", "_"), rid))
+        rpath = os.path.join(OUT, "replays", "%s-%s-%s.json" % (run.prop, c.target.split(".")[-1].replace("#", "_"), rid))
         rec = {"property": run.prop, "target": c.target, "obligation": o.name, "kind": o.kind,
                "clause": o.clause, "line": o.line, "solver": r, "adapter": c.replay,
                "source_sha256": ex.src_sha, "replayed": False}
@@ -333,7 +336,7 @@ def triage(run, failed, known, mods):
                 rec["replayed"] = True
                 confirmed = True
         json.dump(rec, open(rpath, "w"), indent=1, default=str)
-        rel = os.path.relpath(rpath, VERIF)
+        rel = os.path.relpath(rpath, OUT)
         run.violations.append({"obligation": "%s:%s" % (c.target, o.name), "replay": rel, "replayed": confirmed})
         if confirmed:
             run.say("VIOLATION property=%s replay=%s" % (run.prop, rel))
@@ -394,7 +397,7 @@ def run_bounded(run, mod, known):
                                                                      (p.stdout + p.stderr)[-1500:]))
         return
     out = json.loads(lines[-1])
-    os.makedirs(os.path.join(VERIF, "replays"), exist_ok=True)
+    os.makedirs(os.path.join(OUT, "replays"), exist_ok=True)
     for chk in out["checks"]:
         entry = {k: chk[k] for k in ("function", "bound", "evaluations", "distinct_nontrivial", "rule", "samples")
                  if k in chk}
@@ -411,11 +414,11 @@ def run_bounded(run, mod, known):
                                                                                   chk["name"], v.get("case")))
                 continue
             rid = hashlib.md5(json.dumps(v, sort_keys=True, default=str).encode()).hexdigest()[:8]
-            rpath = os.path.join(VERIF, "replays", "%s-%s-%s.json" % (run.prop, chk["name"], rid))
+            rpath = os.path.join(OUT, "replays", "%s-%s-%s.json" % (run.prop, chk["name"], rid))
             rec = {"property": run.prop, "bounded_check": chk["name"], "module": spec["module"],
                    "function": chk.get("function"), "violation": v, "replayed": True}
             json.dump(rec, open(rpath, "w"), indent=1, default=str)
-            rel = os.path.relpath(rpath, VERIF)
+            rel = os.path.relpath(rpath, OUT)
             run.violations.append({"bounded": chk["name"], "replay": rel, "replayed": True})
             run.say("VIOLATION property=%s replay=%s" % (run.prop, rel))
     for a in out.get("assumptions", []):
@@ -478,8 +481,8 @@ def write_evidence(run, mod, rc):
         "violations": len(run.violations),
         "exit_code": rc,
     }
-    os.makedirs(os.path.join(VERIF, "evidence"), exist_ok=True)
-    json.dump(ev, open(os.path.join(VERIF, "evidence", "%s.json" % run.prop), "w"), indent=1, default=str)
+    os.makedirs(os.path.join(OUT, "evidence"), exist_ok=True)
+    json.dump(ev, open(os.path.join(OUT, "evidence", "%s.json" % run.prop), "w"), indent=1, default=str)
 
 
 def main(argv=None):
